@@ -124,7 +124,7 @@ inline std::string gen_scenario(const unsigned char *data, size_t size, const st
     if (c.chance(2, 3)) { o += "req 3 query r3.test A\nstep\nstep\n"; id = 3; ids.push_back(3); }
     o += std::string(waits[c.pick(6)]) + "\n";
     if (c.chance(1, 3)) o += "srcaddr 0 192.168.9.9\n";
-    o += "rule * r4 0 silence\nreq 4 query r4.test A\ninject " + std::string(c.chance(3, 4) ? "nocookie" : "badclientcookie") + " 4\nstep\nstep\n"; id = 4; ids.push_back(4);
+    o += "rule * r4 0 silence\nreq 4 query r4.test A\ninject " + std::string(c.chance(3, 4) ? "nocookie" : "badclientcookie") + " 4" + (c.chance(1, 2) ? "" : (c.chance(1, 2) ? " servfail" : (c.chance(1, 2) ? " refused" : " formerr"))) + "\nstep\nstep\n"; id = 4; ids.push_back(4);
   }
   if (prop == "C06" && c.chance(1, 8)) {
     // a server that rejects every cookie and keeps changing its own: the BADCOOKIE resend path must be bounded like any other
@@ -173,14 +173,14 @@ inline std::string gen_scenario(const unsigned char *data, size_t size, const st
       if (prop == "C08" && c.chance(1, 4)) o += std::string(" cb=") + (c.chance(1, 2) ? "again" : "slowagain");
       if (pf.callbacks && c.chance(1, 3)) { static const char *sc[] = {"new", "cancel", "newcancel", "cancelnew", "new2", "newsearch", "newgai", "slownew"}; o += std::string(" cb=") + sc[c.pick(8)]; }
       o += "\n";
-      if (inject_now) { static const char *ik[] = {"wrongid", "wrongname", "wrongtype", "wrongclass", "wrongcase", "wrongsrc", "wrongsock", "late", "nocookie", "badclientcookie"}; if (c.chance(1, 3)) o += "adv timeout\nstep\n"; o += std::string("inject ") + ik[c.pick(10)] + " " + std::to_string(id) + "\n"; if (c.chance(1, 2)) o += "step\n"; }
+      if (inject_now) { static const char *ik[] = {"wrongid", "wrongname", "wrongtype", "wrongclass", "wrongcase", "wrongsrc", "wrongsock", "late", "nocookie", "badclientcookie"}; if (c.chance(1, 3)) o += "adv timeout\nstep\n"; { static const char *fw[] = {"", "", "", " servfail", " refused", " notimp", " formerr", " nxdomain"}; o += std::string("inject ") + ik[c.pick(10)] + " " + std::to_string(id) + fw[c.pick(8)] + "\n"; } if (c.chance(1, 2)) o += "step\n"; }
     } else if (k < 12) o += "step\n";
     else if (k < 14 && prop == "C20") o += "step\n";   // (no clock jumps: a deadline passing while half a message is buffered is a race with the application, not a segmentation effect)
     else if (k < 14 && prop == "C08") { static const char *adv[] = {"1s", "2s", "3s", "4s", "6s", "2s", "3s", "1s", "29s", "31s", "59s", "61s", "101s", "299s", "301s", "3601s", "999999us", "1000001us", "86401s", "4s"}; o += std::string("adv ") + adv[c.pick(20)] + "\nstep\n"; }
     else if (k < 14) { static const char *adv[] = {"timeout", "1ms", "137ms", "2s", "timeout-1", "300s", "86400s", "120s", "999999us", "5s"}; o += std::string("adv ") + adv[c.pick(10)] + "\n"; }
     else if (k == 14 && pf.cancel) o += "cancel\n";
     else if (k == 15 && pf.reconfig) { if (c.chance(1, 2)) o += "reinit\n"; else { o += "setservers"; unsigned n = 1 + c.pick(3); for (unsigned j = 0; j < n; j++) o += " 10.0.0." + std::to_string(1 + c.pick(5)); o += "\n"; } }
-    else if ((k == 16 || k == 17) && pf.inject && !ids.empty()) { static const char *ik[] = {"wrongid", "wrongname", "wrongtype", "wrongclass", "wrongcase", "wrongsrc", "wrongsock", "late", "nocookie", "badclientcookie"}; o += std::string("inject ") + ik[c.pick(10)] + " " + std::to_string(ids[c.pick((unsigned)ids.size())]) + "\n"; }
+    else if ((k == 16 || k == 17) && pf.inject && !ids.empty()) { static const char *ik[] = {"wrongid", "wrongname", "wrongtype", "wrongclass", "wrongcase", "wrongsrc", "wrongsock", "late", "nocookie", "badclientcookie"}; static const char *fw[] = {"", "", "", " servfail", " refused", " notimp", " formerr", " nxdomain"}; o += std::string("inject ") + ik[c.pick(10)] + " " + std::to_string(ids[c.pick((unsigned)ids.size())]) + fw[c.pick(8)] + "\n"; }
     else if (k == 18 && (pf.faults || prop == "C10")) o += "step stale " + std::to_string(c.pick(4)) + "\n";
     else if (k == 19 && pf.cookies && c.chance(1, 2)) { static const char *cm[] = {"valid", "none", "changing", "valid", "short", "wrongclient"}; o += "cookiemode " + std::to_string(c.pick(nserv)) + " " + cm[c.pick(6)] + "\n"; }
     else if (k == 19 && pf.cookies) o += "srcaddr " + std::to_string(c.pick(nserv)) + " 192.168.7." + std::to_string(1 + c.pick(200)) + "\n";
